@@ -317,18 +317,64 @@ func c12MObsLine(obs []c12MObs) string {
 	return strings.Join(parts, ";")
 }
 
-// The property read on the real MaxJobsSemaphore: never more than the limit
-// in the running set; and (no stall) whenever callers are parked at
-// quiescence there is no free slot.
+// The property read on the real MaxJobsSemaphore's own trace.
+//
+// Outstanding jobs: a metadata object is outstanding from the moment an
+// Acquire for it returns true (the job is then submitted) until it is
+// released (endJob) or its state becomes complete / failed / disabled (the
+// job is over; that is what FindDone may collect).  A job that is merely
+// queued or running stays outstanding whatever the semaphore does.  At every
+// instant the number of outstanding jobs must not exceed the configured
+// maximum.  Also: Current() never exceeds the limit, and (no stall) whenever
+// callers are parked at quiescence there is no free slot.
 func c12OracleM(limit int, toks []string, obs []c12MObs) string {
 	cleared := false
+	outstanding := map[int]bool{}
+	state := map[int]string{}
+	describe := func() string {
+		var ids []int
+		for md := range outstanding {
+			ids = append(ids, md)
+		}
+		sort.Ints(ids)
+		parts := make([]string, len(ids))
+		for k, md := range ids {
+			st := state[md]
+			if st == "" {
+				st = "w"
+			}
+			parts[k] = fmt.Sprintf("md%d:%s", md, st)
+		}
+		return strings.Join(parts, ",")
+	}
 	for i, o := range obs {
 		at := fmt.Sprintf("op %d (%s)", i, toks[i])
-		if toks[i] == "clear" {
+		p := strings.Split(toks[i], ",")
+		switch p[0] {
+		case "clear":
 			cleared = true
+		case "rel":
+			md, _ := strconv.Atoi(p[1])
+			delete(outstanding, md)
+		case "set":
+			md, _ := strconv.Atoi(p[1])
+			state[md] = p[2]
+			if p[2] == "c" || p[2] == "f" || p[2] == "d" {
+				delete(outstanding, md)
+			}
 		}
 		if o.stuck {
 			return "FAIL maxjobs_not_quiescent " + at
+		}
+		for _, e := range o.events {
+			if strings.HasPrefix(e, "T") {
+				md, _ := strconv.Atoi(e[1:])
+				outstanding[md] = true
+			}
+		}
+		if len(outstanding) > limit {
+			return fmt.Sprintf("FAIL maxjobs_outstanding_over_limit %s: %d jobs were granted a slot, are not released and not finished (%s), maximum %d; Current() says %d; ops so far: %s",
+				at, len(outstanding), describe(), limit, o.current, strings.Join(toks[:i+1], " "))
 		}
 		if o.current > limit {
 			return fmt.Sprintf("FAIL maxjobs_over_limit %s: %d running, limit %d", at, o.current, limit)
